@@ -320,7 +320,10 @@ impl Part for FsTxPart {
         let initial = initial_states()[case.initial % initial_states().len()].clone();
         // did the receiver deliver successfully?
         let r_fin = tr.finished_inds(p.to, id);
-        let delivered = r_fin.first().map(|(_, f)| f.report.condition == Condition::NoError && f.delivery_code == DeliveryCode::Complete).unwrap_or(false);
+        // (the first transaction for this id may end undelivered - e.g. EOF overtaking the Metadata in unacknowledged mode - and a
+        // retransmission may then be delivered by a second one: the requests run after *a* successful delivery)
+        let r_succ = r_fin.iter().find(|(_, f)| f.report.condition == Condition::NoError && f.delivery_code == DeliveryCode::Complete);
+        let delivered = r_succ.is_some();
         // expected responses and final state
         let mut model = initial.clone();
         let mut expected: Vec<FileStoreStatus> = vec![];
@@ -362,7 +365,7 @@ impl Part for FsTxPart {
             );
         }
         // responses: receiver's Finished indication(s), every Finished PDU, the sender's indication
-        if let Some((t, f)) = r_fin.first() {
+        if let Some((t, f)) = r_succ.or(r_fin.first()) {
             let got: Vec<FileStoreStatus> = f.filestore_responses.iter().map(|r| r.action_and_status).collect();
             if delivered && got != expected {
                 let f = fail("responses-wrong:receiver-indication", format!("receiver's Finished indication at {t} ms carries {got:?}, expected {expected:?}"));
